@@ -12,8 +12,10 @@ from .base1 import Hist1Prop
 
 def content_map(snap):
     """content / squared error per bin interval, zero entries dropped"""
-    return {tuple(b): (Fraction(f), Fraction(e)) for b, f, e in zip(snap["bins"], snap["freq"], snap["err2"])
-            if Fraction(f) != 0 or Fraction(e) != 0}
+    def num(x):
+        return x if x in ("inf", "-inf", None) else Fraction(x)     # overflow of a narrow float type stays a token
+    return {tuple(b): (num(f), num(e)) for b, f, e in zip(snap["bins"], snap["freq"], snap["err2"])
+            if num(f) != 0 or num(e) != 0}
 
 
 def wellformed(snap):
@@ -62,6 +64,12 @@ class C18(Hist1Prop):
         ops, tags = history1.history(rng, nops=(2, 9), invalid_share=0.35, dtype_focus=focus)
         if focus:
             tags = tags + ["dtype_focus"]
+            if rng.random() < 0.7:
+                # end with a narrowing request: it must be refused whenever a content *or a squared error* is out of range
+                rounded = any(o["op"] == "normalize" for o in ops)     # see history1: no integer targets after a normalisation
+                ops = ops + [{"op": "set_dtype", "h": rng.choice([0, 1]),
+                              "dtype": "float16" if rounded else rng.choice(["int16", "int16", "int32", "float16"]),
+                              "maybe_refused": True, "via_property": rng.random() < 0.5}]
         tol = any(o["op"] in ("normalize",) for o in ops)
         return {"kind": "hist1", "ops": ops, "tags": tags, "tolerance": tol or focus}   # narrow types round their input
 
